@@ -450,7 +450,7 @@ class KittyImage(GraphicsImage):
         if frame_img is not img:
             self._close_image(img)
 
-        control_data = ControlData(f=format, s=width, c=r_width, z=z_index)
+        control_data = ControlData(f=format, s=width, c=r_width, z=int(z_index))
         fill = ("" if mix else ERASE_CHARS % r_width) + (CURSOR_FORWARD % r_width)
         fill_newline = fill + "\n"
 
